@@ -1,8 +1,9 @@
 (* C07/C13/C17: the marker simplifier (Model/MarkerAlg.v: intersection, union, cnf, dnf, MultiMarker.of, MarkerUnion.of,
    intersect_simplify, union_simplify, only, with the recursion guard) keeps truth on every environment, for every fuel
-   and every state of the recursion-guard stacks, relative to three premises that are stated, not proved, here:
-   the merge of two clauses on one variable is exact (it goes through the constraint algebras of C05/C16 and the
-   python_version special cases), equal keys mean equal values, and key equality is symmetric.
+   and every state of the recursion-guard stacks, on any class R of clauses on which (1) equal keys mean equal values,
+   (2) key equality is symmetric and (3) merging two clauses on one variable is exact and stays in the class.
+   The class is threaded through all seventeen invariants (results are again built from clauses of the class), so the
+   three premises are only ever used on clauses the computation can actually meet.
    By induction on fuel: no termination, confluence or normal-form argument is needed — whatever the search returns,
    and whenever the recursion guard cuts it short, the result has the truth table of the operands. *)
 From Coq Require Import List Bool Arith NArith String Ascii Lia.
@@ -13,29 +14,45 @@ Import ListNotations.
 Section Sound.
   Variable E : env.
   Notation bv := (beval E).
-  (* equal keys mean equal values, and the key equality is symmetric: true of markers whose leaves were built by
-     SingleMarker.__init__ (the constraint is a function of name, operator, value and operand order; the extra / non-extra
-     class of a clause is a function of the variable name) *)
-  Hypothesis Hkey : forall a b, marker_eqb a b = true -> bv a = bv b.
-  Hypothesis Hsym : forall a b, marker_eqb a b = marker_eqb b a.
-  (* the premise: merging two clauses on one variable (through the constraint algebras) is exact *)
-  Hypothesis Hmerge : forall fuel st m1 m2 is_multi r,
+  (* the class of clauses (leaf-like markers) *)
+  Variable R : marker -> Prop.
+  Inductive G : marker -> Prop :=
+    | G_any : G MAny
+    | G_empty : G MEmpty
+    | G_single l : R (MSingle l) -> G (MSingle l)
+    | G_amulti n a : R (MAtomicMulti n a) -> G (MAtomicMulti n a)
+    | G_aunion n a : R (MAtomicUnion n a) -> G (MAtomicUnion n a)
+    | G_multi l : Forall G l -> G (MMulti l)
+    | G_union l : Forall G l -> G (MUnion l).
+  Hypothesis Hkey : forall a b, G a -> G b -> marker_eqb a b = true -> bv a = bv b.
+  Hypothesis Hsym : forall a b, G a -> G b -> marker_eqb a b = marker_eqb b a.
+  Hypothesis Hmerge : forall fuel st m1 m2 is_multi r, G m1 -> G m2 ->
     merge_single fuel st m1 m2 is_multi = Ok (Some r) ->
-    bv r = if is_multi then bv m1 && bv m2 else bv m1 || bv m2.
+    bv r = (if is_multi then bv m1 && bv m2 else bv m1 || bv m2) /\ G r.
+
+  Lemma G_multi_inv l : G (MMulti l) -> Forall G l. Proof. inversion 1; assumption. Qed.
+  Lemma G_union_inv l : G (MUnion l) -> Forall G l. Proof. inversion 1; assumption. Qed.
+  Lemma Forall_in {A} (P : A -> Prop) l x : Forall P l -> In x l -> P x.
+  Proof. intros H. rewrite Forall_forall in H. apply H. Qed.
 
   (* ---- list facts ---- *)
-  Lemma in_eq_bv x l : marker_in x l = true -> exists y, In y l /\ bv x = bv y.
-  Proof. unfold marker_in. intros H. apply existsb_exists in H. destruct H as [y [Hy E']]. exists y. split; auto. Qed.
-  Lemma all_member x l : marker_in x l = true -> forallb bv l = true -> bv x = true.
-  Proof. intros H F. destruct (in_eq_bv x l H) as [y [Hy ->]]. rewrite forallb_forall in F. auto. Qed.
-  Lemma any_member x l : marker_in x l = true -> bv x = true -> existsb bv l = true.
-  Proof. intros H B. destruct (in_eq_bv x l H) as [y [Hy Ey]]. apply existsb_exists. exists y. split; congruence. Qed.
+  Lemma in_eq_bv x l : G x -> Forall G l -> marker_in x l = true -> exists y, In y l /\ bv x = bv y.
+  Proof.
+    unfold marker_in. intros Gx Gl H. apply existsb_exists in H. destruct H as [y [Hy E']]. exists y. split; [exact Hy|].
+    exact (Hkey x y Gx (Forall_in _ _ _ Gl Hy) E').
+  Qed.
+  Lemma all_member x l : G x -> Forall G l -> marker_in x l = true -> forallb bv l = true -> bv x = true.
+  Proof. intros Gx Gl H F. destruct (in_eq_bv x l Gx Gl H) as [y [Hy ->]]. rewrite forallb_forall in F. auto. Qed.
+  Lemma any_member x l : G x -> Forall G l -> marker_in x l = true -> bv x = true -> existsb bv l = true.
+  Proof. intros Gx Gl H B. destruct (in_eq_bv x l Gx Gl H) as [y [Hy Ey]]. apply existsb_exists. exists y. split; congruence. Qed.
   Lemma forallb_filter_split (p : marker -> bool) l :
     forallb bv l = forallb bv (filter p l) && forallb bv (filter (fun m => negb (p m)) l).
   Proof. induction l as [|x l IH]; [reflexivity|]. cbn [filter forallb]. destruct (p x); cbn [negb forallb]; rewrite IH; destruct (bv x), (forallb bv (filter p l)); reflexivity. Qed.
   Lemma existsb_filter_split (p : marker -> bool) l :
     existsb bv l = existsb bv (filter p l) || existsb bv (filter (fun m => negb (p m)) l).
   Proof. induction l as [|x l IH]; [reflexivity|]. cbn [filter existsb]. destruct (p x); cbn [negb existsb]; rewrite IH; destruct (bv x), (existsb bv (filter p l)); reflexivity. Qed.
+  Lemma Forall_filter {A} (P : A -> Prop) p l : Forall P l -> Forall P (filter p l).
+  Proof. intros H. apply Forall_forall. intros x Hx. apply filter_In in Hx. exact (Forall_in _ _ _ H (proj1 Hx)). Qed.
   Lemma replace_nth_split {A} i (x mark : A) acc : nth_error acc i = Some mark ->
     exists l1 l2, acc = (l1 ++ mark :: l2)%list /\ replace_nth i x acc = (l1 ++ x :: l2)%list.
   Proof.
@@ -56,28 +73,94 @@ Section Sound.
     intros H Hx. destruct (replace_nth_split i x mark acc H) as [l1 [l2 [-> ->]]]. rewrite !existsb_app. cbn [existsb]. rewrite Hx.
     destruct (existsb bv l1), (bv mark), (bv mk), (existsb bv l2); reflexivity.
   Qed.
+  Lemma replace_nth_G i x acc mark : nth_error acc i = Some mark -> G x -> Forall G acc -> Forall G (replace_nth i x acc).
+  Proof.
+    intros H Gx Ga. destruct (replace_nth_split i x mark acc H) as [l1 [l2 [-> ->]]].
+    apply Forall_app in Ga. destruct Ga as [G1 G2]. apply Forall_app. split; [exact G1|]. inversion G2; subst. constructor; assumption.
+  Qed.
   Lemma nth_in acc i (mark : marker) : nth_error acc i = Some mark -> In mark acc.
   Proof. apply nth_error_In. Qed.
 
-  (* constructors *)
-  Lemma mk_multi_bv l : bv (mk_multi_marker l) = forallb bv l. Proof. exact (flatten_multi_sound E Hkey l). Qed.
-  Lemma mk_union_bv l : bv (mk_union_marker l) = existsb bv l. Proof. exact (flatten_union_sound E Hkey l). Qed.
-  Lemma flatten_multi_bv l : forallb bv (flatten_multi l) = forallb bv l. Proof. exact (mk_multi_bv l). Qed.
-  Lemma flatten_union_bv l : existsb bv (flatten_union l) = existsb bv l. Proof. exact (mk_union_bv l). Qed.
-  Lemma unwrap_go_bv n m : bv (unwrap_go n m) = bv m.
+  (* ---- the constructors: splicing nested members and dropping duplicates ---- *)
+  Lemma add_unique_G acc m : Forall G acc -> G m -> Forall G (add_unique acc m).
+  Proof. intros Ga Gm. unfold add_unique. destruct (marker_in m acc); [exact Ga|]. apply Forall_app. split; [exact Ga|]. constructor; [exact Gm|constructor]. Qed.
+  Lemma add_unique_or acc m : Forall G acc -> G m -> existsb bv (add_unique acc m) = existsb bv acc || bv m.
   Proof.
-    revert m. induction n as [|n IH]; intros m; [reflexivity|].
-    destruct m as [| |l|na a|na a|[|x [|y r]]|[|x [|y r]]]; cbn [unwrap_go]; try reflexivity; rewrite IH; cbn [beval forallb existsb];
-      rewrite ?andb_true_r, ?orb_false_r; reflexivity.
+    intros Ga Gm. unfold add_unique. destruct (marker_in m acc) eqn:I.
+    - destruct (bv m) eqn:Bm; [|rewrite orb_false_r; reflexivity]. rewrite (any_member m acc Gm Ga I Bm). reflexivity.
+    - rewrite existsb_app. cbn. rewrite orb_false_r. reflexivity.
   Qed.
-  Lemma unwrap1_bv m : bv (unwrap1 m) = bv m.
-  Proof. apply unwrap_go_bv. Qed.
-  Lemma min_by_complexity_bv best l : (forall x, In x l -> bv x = bv best) -> bv (min_by_complexity best l) = bv best.
+  Lemma add_unique_and acc m : Forall G acc -> G m -> forallb bv (add_unique acc m) = forallb bv acc && bv m.
   Proof.
-    revert best; induction l as [|x l IH]; intros best H; [reflexivity|]. cbn [min_by_complexity].
+    intros Ga Gm. unfold add_unique. destruct (marker_in m acc) eqn:I.
+    - destruct (forallb bv acc) eqn:F; [|reflexivity]. rewrite (all_member m acc Gm Ga I F). reflexivity.
+    - rewrite forallb_app. cbn. rewrite andb_true_r. reflexivity.
+  Qed.
+  Lemma fold_add_unique sub : Forall G sub -> forall acc, Forall G acc ->
+    Forall G (fold_left add_unique sub acc) /\
+    existsb bv (fold_left add_unique sub acc) = existsb bv acc || existsb bv sub /\
+    forallb bv (fold_left add_unique sub acc) = forallb bv acc && forallb bv sub.
+  Proof.
+    induction 1 as [|x sub Gx Gs IH]; intros acc Ga; cbn [fold_left existsb forallb].
+    - rewrite orb_false_r, andb_true_r. auto.
+    - destruct (IH (add_unique acc x) (add_unique_G acc x Ga Gx)) as (A & B & C). split; [exact A|].
+      rewrite B, C, (add_unique_or acc x Ga Gx), (add_unique_and acc x Ga Gx), orb_assoc, andb_assoc. auto.
+  Qed.
+  Lemma flatten_multi_spec l : Forall G l ->
+    Forall G (flatten_multi l) /\ forallb bv (flatten_multi l) = forallb bv l.
+  Proof.
+    intros Gl. unfold flatten_multi.
+    assert (K : forall acc, Forall G acc ->
+      Forall G (fold_left (fun acc m => match m with MMulti sub => fold_left add_unique sub acc | _ => add_unique acc m end) l acc) /\
+      forallb bv (fold_left (fun acc m => match m with MMulti sub => fold_left add_unique sub acc | _ => add_unique acc m end) l acc) = forallb bv acc && forallb bv l).
+    { induction Gl as [|m l Gm Gl IH]; intros acc Ga; cbn [fold_left forallb]; [rewrite andb_true_r; auto|].
+      assert (S1 : Forall G (match m with MMulti sub => fold_left add_unique sub acc | _ => add_unique acc m end) /\
+                   forallb bv (match m with MMulti sub => fold_left add_unique sub acc | _ => add_unique acc m end) = forallb bv acc && bv m).
+      { destruct m; try (split; [apply add_unique_G | apply add_unique_and]; assumption).
+        destruct (fold_add_unique l0 (G_multi_inv _ Gm) acc Ga) as (A & _ & C). split; [exact A|exact C]. }
+      destruct S1 as [A B]. destruct (IH _ A) as [A' B']. split; [exact A'|]. rewrite B', B, andb_assoc. reflexivity. }
+    destruct (K [] (Forall_nil G)) as [A B]. split; [exact A|exact B].
+  Qed.
+  Lemma flatten_union_spec l : Forall G l ->
+    Forall G (flatten_union l) /\ existsb bv (flatten_union l) = existsb bv l.
+  Proof.
+    intros Gl. unfold flatten_union.
+    assert (K : forall acc, Forall G acc ->
+      Forall G (fold_left (fun acc m => match m with MUnion sub => fold_left add_unique sub acc | _ => add_unique acc m end) l acc) /\
+      existsb bv (fold_left (fun acc m => match m with MUnion sub => fold_left add_unique sub acc | _ => add_unique acc m end) l acc) = existsb bv acc || existsb bv l).
+    { induction Gl as [|m l Gm Gl IH]; intros acc Ga; cbn [fold_left existsb]; [rewrite orb_false_r; auto|].
+      assert (S1 : Forall G (match m with MUnion sub => fold_left add_unique sub acc | _ => add_unique acc m end) /\
+                   existsb bv (match m with MUnion sub => fold_left add_unique sub acc | _ => add_unique acc m end) = existsb bv acc || bv m).
+      { destruct m; try (split; [apply add_unique_G | apply add_unique_or]; assumption).
+        destruct (fold_add_unique l0 (G_union_inv _ Gm) acc Ga) as (A & B & _). split; [exact A|exact B]. }
+      destruct S1 as [A B]. destruct (IH _ A) as [A' B']. split; [exact A'|]. rewrite B', B, orb_assoc. reflexivity. }
+    destruct (K [] (Forall_nil G)) as [A B]. split; [exact A|exact B].
+  Qed.
+  Lemma mk_multi_bv l : Forall G l -> bv (mk_multi_marker l) = forallb bv l /\ G (mk_multi_marker l).
+  Proof. intros Gl. destruct (flatten_multi_spec l Gl) as [A B]. unfold mk_multi_marker. split; [exact B|constructor; exact A]. Qed.
+  Lemma mk_union_bv l : Forall G l -> bv (mk_union_marker l) = existsb bv l /\ G (mk_union_marker l).
+  Proof. intros Gl. destruct (flatten_union_spec l Gl) as [A B]. unfold mk_union_marker. split; [exact B|constructor; exact A]. Qed.
+
+  Lemma unwrap_go_bv n m : G m -> bv (unwrap_go n m) = bv m /\ G (unwrap_go n m).
+  Proof.
+    revert m. induction n as [|n IH]; intros m Gm; [auto|].
+    destruct m as [| |l|na a|na a|[|x [|y r]]|[|x [|y r]]]; cbn [unwrap_go]; auto.
+    - assert (Gx : G x) by (apply G_multi_inv in Gm; inversion Gm; assumption).
+      destruct (IH x Gx) as [A B]. split; [|exact B]. rewrite A. cbn [beval forallb]. rewrite andb_true_r. reflexivity.
+    - assert (Gx : G x) by (apply G_union_inv in Gm; inversion Gm; assumption).
+      destruct (IH x Gx) as [A B]. split; [|exact B]. rewrite A. cbn [beval existsb]. rewrite orb_false_r. reflexivity.
+  Qed.
+  Lemma unwrap1_bv m : G m -> bv (unwrap1 m) = bv m /\ G (unwrap1 m).
+  Proof. apply unwrap_go_bv. Qed.
+  Lemma min_by_complexity_bv best l : G best -> Forall G l -> (forall x, In x l -> bv x = bv best) ->
+    bv (min_by_complexity best l) = bv best /\ G (min_by_complexity best l).
+  Proof.
+    revert best; induction l as [|x l IH]; intros best Gb Gl H; [auto|]. cbn [min_by_complexity]. inversion Gl; subst.
     destruct (cx_lt _ _).
-    - rewrite IH; [apply H; left; reflexivity|]. intros y Hy. rewrite (H y (or_intror Hy)), (H x (or_introl eq_refl)). reflexivity.
-    - apply IH. intros y Hy. apply H. right. exact Hy.
+    - destruct (IH x) as [A B]; auto.
+      + intros y Hy. rewrite (H y (or_intror Hy)), (H x (or_introl eq_refl)). reflexivity.
+      + split; [rewrite A; apply H; left; reflexivity|exact B].
+    - apply IH; auto. intros y Hy. apply H. right. exact Hy.
   Qed.
   Lemma existsb_map' {A B} (f : B -> bool) (g : A -> B) l : existsb f (map g l) = existsb (fun x => f (g x)) l.
   Proof. induction l as [|a l IH]; cbn; [reflexivity|]. rewrite IH. reflexivity. Qed.
@@ -102,6 +185,12 @@ Section Sound.
     { clear IHl. induction (product ls) as [|c cs IHc]; cbn; [rewrite orb_true_r; reflexivity|]. rewrite IHc. destruct (bv x); reflexivity. }
     rewrite Q. destruct (bv x), (forallb (existsb bv) (product ls)), (forallb bv l); reflexivity.
   Qed.
+  Lemma product_G ls : Forall (Forall G) ls -> Forall (Forall G) (product ls).
+  Proof.
+    induction 1 as [|l ls Gl Gls IH]; cbn [product]; [constructor; constructor|].
+    apply Forall_forall. intros c Hc. apply in_flat_map in Hc. destruct Hc as [x [Hx Hc]]. apply in_map_iff in Hc.
+    destruct Hc as [c' [<- Hc']]. constructor; [exact (Forall_in _ _ _ Gl Hx)|exact (Forall_in _ _ _ IH Hc')].
+  Qed.
 
   Local Opaque min_by_complexity unwrap1 mk_multi_marker mk_union_marker flatten_multi flatten_union.
   (* ---- monadic plumbing ---- *)
@@ -112,11 +201,24 @@ Section Sound.
     - destruct (g x) as [y|] eqn:Hx; [|discriminate]. cbn [bind] in H. destruct (mapR g l) as [ys|]; [|discriminate].
       cbn [bind] in H. injection H as <-. constructor; auto.
   Qed.
-  Lemma forall2_bools {A B} (R : A -> B -> Prop) (k : A -> bool) (h : B -> bool) l l' :
-    Forall2 R l l' -> (forall x y, R x y -> h y = k x) -> forallb h l' = forallb k l /\ existsb h l' = existsb k l.
+  (* results of a mapped step: each keeps (or, for [weak], only weakens) the value and stays in the class *)
+  Lemma forall2_bools {A} (Rel : A -> marker -> Prop) (P : A -> Prop) (k : A -> bool) l l' :
+    Forall2 Rel l l' -> Forall P l -> (forall x y, P x -> Rel x y -> bv y = k x /\ G y) ->
+    forallb bv l' = forallb k l /\ existsb bv l' = existsb k l /\ Forall G l'.
   Proof.
-    intros F HR. induction F as [|x y l l' Hxy F IH]; [split; reflexivity|]. destruct IH as [I1 I2].
-    cbn [forallb existsb]. rewrite I1, I2, (HR x y Hxy). split; reflexivity.
+    intros F. induction F as [|x y l l' Hxy F IH]; intros HP HR; [repeat split; constructor|]. inversion HP; subst.
+    destruct (IH H2 HR) as (I1 & I2 & I3). destruct (HR x y H1 Hxy) as [V Gy].
+    cbn [forallb existsb]. rewrite I1, I2, V. repeat split. constructor; assumption.
+  Qed.
+  Lemma forall2_weaken (Rel : marker -> marker -> Prop) l l' :
+    Forall2 Rel l l' -> Forall G l -> (forall x y, G x -> Rel x y -> (bv x = true -> bv y = true) /\ G y) ->
+    (forallb bv l = true -> forallb bv l' = true) /\ (existsb bv l = true -> existsb bv l' = true) /\ Forall G l'.
+  Proof.
+    intros F. induction F as [|x y l l' Hxy F IH]; intros HP HR; [repeat split; auto|]. inversion HP; subst.
+    destruct (IH H2 HR) as (I1 & I2 & I3). destruct (HR x y H1 Hxy) as [V Gy]. cbn [forallb existsb]. repeat split.
+    - intros H. apply andb_true_iff in H. destruct H as [Ha Hb]. rewrite (V Ha), (I1 Hb). reflexivity.
+    - intros H. apply orb_true_iff in H. destruct H as [Ha|Hb]; [rewrite (V Ha); reflexivity|rewrite (I2 Hb); apply orb_true_r].
+    - constructor; assumption.
   Qed.
   Lemma empty_member_all l : existsb m_is_empty l = true -> forallb bv l = false.
   Proof.
@@ -132,39 +234,40 @@ Section Sound.
   Proof. induction l as [|x l IH]; [reflexivity|]. cbn [filter forallb]. destruct x; cbn [m_is_any negb forallb]; rewrite IH; reflexivity. Qed.
   Lemma drop_empty_any l : existsb bv (filter (fun m => negb (m_is_empty m)) l) = existsb bv l.
   Proof. induction l as [|x l IH]; [reflexivity|]. cbn [filter existsb]. destruct x; cbn [m_is_empty negb existsb]; rewrite IH; reflexivity. Qed.
+  Lemma G_leaf_like m : G m -> is_leaf_like m = true -> G m. Proof. auto. Qed.
 
   (* ---- what each function of the simplifier must satisfy ---- *)
-  Definition S_int f := forall st a b r, m_intersect f st a b = Ok r -> bv r = bv a && bv b.
-  Definition S_uni f := forall st a b r, m_union f st a b = Ok r -> bv r = bv a || bv b.
-  Definition S_ifn f := forall st args r, intersection_fn f st args = Ok r -> bv r = forallb bv args.
-  Definition S_ufn f := forall st args r, union_fn f st args = Ok r -> bv r = existsb bv args.
-  Definition S_cnf f := forall st m r, cnf f st m = Ok r -> bv r = bv m.
-  Definition S_dnf f := forall st m r, dnf f st m = Ok r -> bv r = bv m.
-  Definition S_mof f := forall st ms r, multi_of f st ms = Ok r -> bv r = forallb bv ms.
-  Definition S_mloop f := forall st old new r, multi_of_loop f st old new = Ok r -> bv r = forallb bv new.
-  Definition S_mpass f := forall st todo acc o, multi_pass f st todo acc = Ok o ->
-    match o with Some l => forallb bv l | None => false end = forallb bv acc && forallb bv todo.
-  Definition S_mtry f := forall st mk acc i o, multi_try f st mk acc i = Ok o ->
+  Definition S_int f := forall st a b r, G a -> G b -> m_intersect f st a b = Ok r -> bv r = bv a && bv b /\ G r.
+  Definition S_uni f := forall st a b r, G a -> G b -> m_union f st a b = Ok r -> bv r = bv a || bv b /\ G r.
+  Definition S_ifn f := forall st args r, Forall G args -> intersection_fn f st args = Ok r -> bv r = forallb bv args /\ G r.
+  Definition S_ufn f := forall st args r, Forall G args -> union_fn f st args = Ok r -> bv r = existsb bv args /\ G r.
+  Definition S_cnf f := forall st m r, G m -> cnf f st m = Ok r -> bv r = bv m /\ G r.
+  Definition S_dnf f := forall st m r, G m -> dnf f st m = Ok r -> bv r = bv m /\ G r.
+  Definition S_mof f := forall st ms r, Forall G ms -> multi_of f st ms = Ok r -> bv r = forallb bv ms /\ G r.
+  Definition S_mloop f := forall st old new r, Forall G new -> multi_of_loop f st old new = Ok r -> bv r = forallb bv new /\ G r.
+  Definition S_mpass f := forall st todo acc o, Forall G todo -> Forall G acc -> multi_pass f st todo acc = Ok o ->
+    match o with Some l => forallb bv l = forallb bv acc && forallb bv todo /\ Forall G l | None => forallb bv acc && forallb bv todo = false end.
+  Definition S_mtry f := forall st mk acc i o, G mk -> Forall G acc -> multi_try f st mk acc i = Ok o ->
     match o with
     | None => forallb bv acc && bv mk = false
     | Some None => True
-    | Some (Some l) => forallb bv l = forallb bv acc && bv mk
+    | Some (Some l) => forallb bv l = forallb bv acc && bv mk /\ Forall G l
     end.
-  Definition S_uof f := forall st ms r, union_of_m f st ms = Ok r -> bv r = existsb bv ms.
-  Definition S_uloop f := forall st old new r, union_of_loop f st old new = Ok r -> bv r = existsb bv new.
-  Definition S_upass f := forall st todo acc o, union_pass f st todo acc = Ok o ->
-    match o with Some l => existsb bv l | None => true end = existsb bv acc || existsb bv todo.
-  Definition S_utry f := forall st mk acc i o, union_try f st mk acc i = Ok o ->
+  Definition S_uof f := forall st ms r, Forall G ms -> union_of_m f st ms = Ok r -> bv r = existsb bv ms /\ G r.
+  Definition S_uloop f := forall st old new r, Forall G new -> union_of_loop f st old new = Ok r -> bv r = existsb bv new /\ G r.
+  Definition S_upass f := forall st todo acc o, Forall G todo -> Forall G acc -> union_pass f st todo acc = Ok o ->
+    match o with Some l => existsb bv l = existsb bv acc || existsb bv todo /\ Forall G l | None => existsb bv acc || existsb bv todo = true end.
+  Definition S_utry f := forall st mk acc i o, G mk -> Forall G acc -> union_try f st mk acc i = Ok o ->
     match o with
     | None => existsb bv acc || bv mk = true
     | Some None => True
-    | Some (Some l) => existsb bv l = existsb bv acc || bv mk
+    | Some (Some l) => existsb bv l = existsb bv acc || bv mk /\ Forall G l
     end.
-  Definition S_isimp f := forall st ms other o, intersect_simplify f st ms other = Ok o ->
-    match o with Some r => bv r = existsb bv ms && bv other | None => True end.
-  Definition S_usimp f := forall st ms other o, union_simplify f st ms other = Ok o ->
-    match o with Some r => bv r = forallb bv ms || bv other | None => True end.
-  Definition S_only f := forall st names m r, only f st names m = Ok r -> bv m = true -> bv r = true.
+  Definition S_isimp f := forall st ms other o, Forall G ms -> G other -> intersect_simplify f st ms other = Ok o ->
+    match o with Some r => bv r = existsb bv ms && bv other /\ G r | None => True end.
+  Definition S_usimp f := forall st ms other o, Forall G ms -> G other -> union_simplify f st ms other = Ok o ->
+    match o with Some r => bv r = forallb bv ms || bv other /\ G r | None => True end.
+  Definition S_only f := forall st names m r, G m -> only f st names m = Ok r -> (bv m = true -> bv r = true) /\ G r.
 
   Record ALL (f : nat) : Prop := mkALL {
     a_int : S_int f; a_uni : S_uni f; a_ifn : S_ifn f; a_ufn : S_ufn f; a_cnf : S_cnf f; a_dnf : S_dnf f;
@@ -177,309 +280,378 @@ Section Sound.
     | bind ?x _ = Ok _ => let a := fresh "v" in let Ha := fresh "Hv" in destruct x as [a|] eqn:Ha; [cbn [bind] in H | discriminate H]
     end.
   Ltac ok_inv H := injection H as H; try subst.
+  Ltac two l := (constructor; [|constructor; [|constructor]]).
 
   Lemma all_0 : ALL 0.
   Proof. split; intros st; intros; discriminate. Qed.
 
   Lemma step_int f : ALL f -> S_int (S f).
   Proof.
-    intros A st a b r H. cbn [m_intersect] in H.
+    intros A st a b r Ga Gb H. cbn [m_intersect] in H.
+    assert (Gab : Forall G [a; b]) by (constructor; [exact Ga|constructor; [exact Gb|constructor]]).
     assert (L : is_leaf_like a = true ->
                 (if is_leaf_like b then do mg <- merge_single f st a b true; match mg with Some r => Ok r | None => Ok (mk_multi_marker [a; b]) end
-                 else m_intersect f st b a) = Ok r -> bv r = bv a && bv b).
+                 else m_intersect f st b a) = Ok r -> bv r = bv a && bv b /\ G r).
     { intros _ H'. destruct (is_leaf_like b).
       - bind_inv H'. destruct v as [r'|]; ok_inv H'.
-        + exact (Hmerge _ _ _ _ _ _ Hv).
-        + rewrite mk_multi_bv. cbn [forallb]. rewrite andb_true_r. reflexivity.
-      - rewrite (a_int f A _ _ _ _ H'). apply andb_comm. }
+        + exact (Hmerge _ _ _ _ _ _ Ga Gb Hv).
+        + destruct (mk_multi_bv [a; b] Gab) as [V Gr]. split; [|exact Gr]. rewrite V. cbn [forallb]. rewrite andb_true_r. reflexivity.
+      - destruct (a_int f A _ _ _ _ Gb Ga H') as [V Gr]. split; [|exact Gr]. rewrite V. apply andb_comm. }
     destruct a; try (apply L; [reflexivity|exact H]).
-    - ok_inv H. reflexivity.
-    - ok_inv H. reflexivity.
-    - rewrite (a_ifn f A _ _ _ H). cbn [forallb]. rewrite andb_true_r. reflexivity.
-    - rewrite (a_ifn f A _ _ _ H). cbn [forallb]. rewrite andb_true_r. reflexivity.
+    - ok_inv H. split; [reflexivity|exact Gb].
+    - ok_inv H. split; [reflexivity|constructor].
+    - destruct (a_ifn f A _ _ _ Gab H) as [V Gr]. split; [|exact Gr]. rewrite V. cbn [forallb]. rewrite andb_true_r. reflexivity.
+    - destruct (a_ifn f A _ _ _ Gab H) as [V Gr]. split; [|exact Gr]. rewrite V. cbn [forallb]. rewrite andb_true_r. reflexivity.
   Qed.
-
   Lemma step_uni f : ALL f -> S_uni (S f).
   Proof.
-    intros A st a b r H. cbn [m_union] in H.
+    intros A st a b r Ga Gb H. cbn [m_union] in H.
+    assert (Gab : Forall G [a; b]) by (constructor; [exact Ga|constructor; [exact Gb|constructor]]).
     assert (L : is_leaf_like a = true ->
                 (if is_leaf_like b then do mg <- merge_single f st a b false; match mg with Some r => Ok r | None => Ok (mk_union_marker [a; b]) end
-                 else m_union f st b a) = Ok r -> bv r = bv a || bv b).
+                 else m_union f st b a) = Ok r -> bv r = bv a || bv b /\ G r).
     { intros _ H'. destruct (is_leaf_like b).
       - bind_inv H'. destruct v as [r'|]; ok_inv H'.
-        + exact (Hmerge _ _ _ _ _ _ Hv).
-        + rewrite mk_union_bv. cbn [existsb]. rewrite orb_false_r. reflexivity.
-      - rewrite (a_uni f A _ _ _ _ H'). apply orb_comm. }
+        + exact (Hmerge _ _ _ _ _ _ Ga Gb Hv).
+        + destruct (mk_union_bv [a; b] Gab) as [V Gr]. split; [|exact Gr]. rewrite V. cbn [existsb]. rewrite orb_false_r. reflexivity.
+      - destruct (a_uni f A _ _ _ _ Gb Ga H') as [V Gr]. split; [|exact Gr]. rewrite V. apply orb_comm. }
     destruct a; try (apply L; [reflexivity|exact H]).
-    - ok_inv H. reflexivity.
-    - ok_inv H. reflexivity.
-    - rewrite (a_ufn f A _ _ _ H). cbn [existsb]. rewrite orb_false_r. reflexivity.
-    - rewrite (a_ufn f A _ _ _ H). cbn [existsb]. rewrite orb_false_r. reflexivity.
+    - ok_inv H. split; [reflexivity|constructor].
+    - ok_inv H. split; [reflexivity|exact Gb].
+    - destruct (a_ufn f A _ _ _ Gab H) as [V Gr]. split; [|exact Gr]. rewrite V. cbn [existsb]. rewrite orb_false_r. reflexivity.
+    - destruct (a_ufn f A _ _ _ Gab H) as [V Gr]. split; [|exact Gr]. rewrite V. cbn [existsb]. rewrite orb_false_r. reflexivity.
   Qed.
 
   Lemma step_ifn f : ALL f -> S_ifn (S f).
   Proof.
-    intros A st args r H. cbn [intersection_fn] in H.
+    intros A st args r Ga H. cbn [intersection_fn] in H.
     destruct (in_stack args (s_int st)); [discriminate|].
-    destruct (existsb m_is_empty args) eqn:He; [ok_inv H; rewrite (empty_member_all _ He); reflexivity|].
-    rewrite <- (drop_any_all args).
-    destruct (filter (fun m => negb (m_is_any m)) args) as [|m0 ms0] eqn:Hf; [ok_inv H; reflexivity|].
+    destruct (existsb m_is_empty args) eqn:He; [ok_inv H; rewrite (empty_member_all _ He); split; [reflexivity|constructor]|].
+    rewrite <- (drop_any_all args). pose proof (Forall_filter G (fun m => negb (m_is_any m)) args Ga) as Gf.
+    destruct (filter (fun m => negb (m_is_any m)) args) as [|m0 ms0] eqn:Hf; [ok_inv H; split; [reflexivity|constructor]|].
     remember (m0 :: ms0) as ms eqn:Hms. clear Hms Hf.
+    destruct (mk_multi_bv ms Gf) as [Vm Gm]. destruct (unwrap1_bv _ Gm) as [Vu Gu].
     remember (unwrap1 (mk_multi_marker ms)) as un eqn:Hun0.
-    assert (Hun : bv un = forallb bv ms) by (subst un; rewrite unwrap1_bv, mk_multi_bv; reflexivity). clear Hun0.
-    bind_inv H. rename v into dj. assert (Hd : bv dj = bv un) by exact (a_dnf f A _ _ _ Hv).
+    assert (Hun : bv un = forallb bv ms) by (rewrite Vu, Vm; reflexivity). clear Hun0 Vu Vm.
+    bind_inv H. rename v into dj. destruct (a_dnf f A _ _ _ Gu Hv) as [Hd Gd].
     rewrite <- Hun, <- Hd.
-    destruct dj; try (ok_inv H; reflexivity).
+    destruct dj; try (ok_inv H; split; [reflexivity|exact Gd]).
     match type of H with context [cnf f ?s ?m] => destruct (cnf f s m) as [cj|e] eqn:Hc end.
-    - assert (Hcj : bv cj = bv (MUnion l)) by exact (a_cnf f A _ _ _ Hc).
-      destruct cj; ok_inv H; try exact Hcj.
-      apply min_by_complexity_bv. intros x [<-|[<-|[]]]; [exact Hcj | symmetry; exact Hd].
-    - destruct e; try discriminate. ok_inv H. apply min_by_complexity_bv. intros x [<-|[]]. symmetry; exact Hd.
+    - destruct (a_cnf f A _ _ _ Gd Hc) as [Hcj Gc].
+      destruct cj; ok_inv H; try (split; [exact Hcj|exact Gc]).
+      apply min_by_complexity_bv; [exact Gd|constructor; [exact Gc|constructor; [exact Gu|constructor]]|].
+      intros x [<-|[<-|[]]]; [exact Hcj | symmetry; exact Hd].
+    - destruct e; try discriminate. ok_inv H. apply min_by_complexity_bv; [exact Gd|constructor; [exact Gu|constructor]|].
+      intros x [<-|[]]. symmetry; exact Hd.
   Qed.
   Lemma step_ufn f : ALL f -> S_ufn (S f).
   Proof.
-    intros A st args r H. cbn [union_fn] in H.
+    intros A st args r Ga H. cbn [union_fn] in H.
     destruct (in_stack args (s_uni st)); [discriminate|].
-    destruct (existsb m_is_any args) eqn:He; [ok_inv H; rewrite (any_member_any _ He); reflexivity|].
-    rewrite <- (drop_empty_any args).
-    destruct (filter (fun m => negb (m_is_empty m)) args) as [|m0 ms0] eqn:Hf; [ok_inv H; reflexivity|].
+    destruct (existsb m_is_any args) eqn:He; [ok_inv H; rewrite (any_member_any _ He); split; [reflexivity|constructor]|].
+    rewrite <- (drop_empty_any args). pose proof (Forall_filter G (fun m => negb (m_is_empty m)) args Ga) as Gf.
+    destruct (filter (fun m => negb (m_is_empty m)) args) as [|m0 ms0] eqn:Hf; [ok_inv H; split; [reflexivity|constructor]|].
     remember (m0 :: ms0) as ms eqn:Hms. clear Hms Hf.
+    destruct (mk_union_bv ms Gf) as [Vm Gm]. destruct (unwrap1_bv _ Gm) as [Vu Gu].
     remember (unwrap1 (mk_union_marker ms)) as un eqn:Hun0.
-    assert (Hun : bv un = existsb bv ms) by (subst un; rewrite unwrap1_bv, mk_union_bv; reflexivity). clear Hun0.
-    bind_inv H. rename v into cj. assert (Hd : bv cj = bv un) by exact (a_cnf f A _ _ _ Hv).
+    assert (Hun : bv un = existsb bv ms) by (rewrite Vu, Vm; reflexivity). clear Hun0 Vu Vm.
+    bind_inv H. rename v into cj. destruct (a_cnf f A _ _ _ Gu Hv) as [Hd Gd].
     rewrite <- Hun, <- Hd.
-    destruct cj; try (ok_inv H; reflexivity).
+    destruct cj; try (ok_inv H; split; [reflexivity|exact Gd]).
     match type of H with context [dnf f ?s ?m] => destruct (dnf f s m) as [dj|e] eqn:Hc end.
-    - assert (Hdj : bv dj = bv (MMulti l)) by exact (a_dnf f A _ _ _ Hc).
-      destruct dj; ok_inv H; try exact Hdj.
-      rewrite <- Hdj. apply min_by_complexity_bv. intros x [<-|[<-|[]]]; [symmetry; exact Hdj | rewrite <- Hd; symmetry; exact Hdj].
-    - destruct e; try discriminate. ok_inv H. apply min_by_complexity_bv. intros x [<-|[]]. symmetry; exact Hd.
+    - destruct (a_dnf f A _ _ _ Gd Hc) as [Hdj Gj].
+      destruct dj; ok_inv H; try (split; [exact Hdj|exact Gj]).
+      rewrite <- Hdj. apply min_by_complexity_bv; [exact Gj|constructor; [exact Gd|constructor; [exact Gu|constructor]]|].
+      intros x [<-|[<-|[]]]; [symmetry; exact Hdj | rewrite <- Hd; symmetry; exact Hdj].
+    - destruct e; try discriminate. ok_inv H. apply min_by_complexity_bv; [exact Gd|constructor; [exact Gu|constructor]|].
+      intros x [<-|[]]. symmetry; exact Hd.
   Qed.
 
-  Lemma conj_list_bv c : forallb bv (match c with MMulti l => l | _ => [c] end) = bv c.
-  Proof. destruct c; cbn [forallb beval]; rewrite ?andb_true_r; reflexivity. Qed.
-  Lemma disj_list_bv c : existsb bv (match c with MUnion l => l | _ => [c] end) = bv c.
-  Proof. destruct c; cbn [existsb beval]; rewrite ?orb_false_r; reflexivity. Qed.
+  Lemma conj_list_bv c : G c -> forallb bv (match c with MMulti l => l | _ => [c] end) = bv c /\ Forall G (match c with MMulti l => l | _ => [c] end).
+  Proof. intros Gc. destruct c; cbn [forallb beval]; rewrite ?andb_true_r; split; try reflexivity; try (constructor; [assumption|constructor]). exact (G_multi_inv _ Gc). Qed.
+  Lemma disj_list_bv c : G c -> existsb bv (match c with MUnion l => l | _ => [c] end) = bv c /\ Forall G (match c with MUnion l => l | _ => [c] end).
+  Proof. intros Gc. destruct c; cbn [existsb beval]; rewrite ?orb_false_r; split; try reflexivity; try (constructor; [assumption|constructor]). exact (G_union_inv _ Gc). Qed.
+  Lemma Forall_map_lists (h : marker -> list marker) cs : Forall G cs -> (forall c, G c -> Forall G (h c)) -> Forall (Forall G) (map h cs).
+  Proof. intros Gc Hh. induction Gc; cbn; constructor; auto. Qed.
 
   Lemma step_cnf f : ALL f -> S_cnf (S f).
   Proof.
-    intros A st m r H. cbn [cnf] in H. destruct m; try (ok_inv H; reflexivity).
-    - bind_inv H. rename v into cs. rewrite (a_mof f A _ _ _ H). cbn [beval].
-      apply (forall2_bools _ bv bv _ _ (mapR_forall2 _ _ _ Hv)). intros x y Hxy. exact (a_cnf f A _ _ _ Hxy).
-    - bind_inv H. rename v into cs. bind_inv H. rename v into clauses. rewrite (a_mof f A _ _ _ H). cbn [beval].
-      destruct (forall2_bools _ (existsb bv) bv _ _ (mapR_forall2 _ _ _ Hv0)) as [C1 _].
-      { intros x y Hxy. exact (a_uof f A _ _ _ Hxy). }
-      rewrite C1, product_all_any, existsb_map'.
-      apply (forall2_bools _ bv (fun c => forallb bv match c with MMulti l0 => l0 | _ => [c] end) _ _ (mapR_forall2 _ _ _ Hv)).
-      intros x y Hxy. rewrite conj_list_bv. exact (a_cnf f A _ _ _ Hxy).
+    intros A st m r Gm H. cbn [cnf] in H. destruct m; try (ok_inv H; split; [reflexivity|exact Gm]).
+    - bind_inv H. rename v into cs.
+      destruct (forall2_bools _ G bv _ _ (mapR_forall2 _ _ _ Hv) (G_multi_inv _ Gm)) as (C1 & _ & Gcs).
+      { intros x y Gx Hxy. exact (a_cnf f A _ _ _ Gx Hxy). }
+      destruct (a_mof f A _ _ _ Gcs H) as [V Gr]. split; [|exact Gr]. rewrite V. cbn [beval]. exact C1.
+    - bind_inv H. rename v into cs. bind_inv H. rename v into clauses.
+      destruct (forall2_bools _ G bv _ _ (mapR_forall2 _ _ _ Hv) (G_union_inv _ Gm)) as (_ & C2 & Gcs).
+      { intros x y Gx Hxy. exact (a_cnf f A _ _ _ Gx Hxy). }
+      set (h := fun c => match c with MMulti l0 => l0 | _ => [c] end) in *.
+      assert (Glists : Forall (Forall G) (map h cs)) by (apply Forall_map_lists; [exact Gcs|intros c Gc; exact (proj2 (conj_list_bv c Gc))]).
+      destruct (forall2_bools _ (Forall G) (existsb bv) _ _ (mapR_forall2 _ _ _ Hv0) (product_G _ Glists)) as (C1 & _ & Gcl).
+      { intros x y Gx Hxy. exact (a_uof f A _ _ _ Gx Hxy). }
+      destruct (a_mof f A _ _ _ Gcl H) as [V Gr]. split; [|exact Gr]. rewrite V, C1, product_all_any, existsb_map'. cbn [beval]. rewrite <- C2.
+      clear - Gcs. induction Gcs as [|c cs Gc Gcs IH]; [reflexivity|]. cbn [existsb]. rewrite IH. unfold h. rewrite (proj1 (conj_list_bv c Gc)). reflexivity.
   Qed.
   Lemma step_dnf f : ALL f -> S_dnf (S f).
   Proof.
-    intros A st m r H. cbn [dnf] in H. destruct m; try (ok_inv H; reflexivity).
-    - bind_inv H. rename v into ds. bind_inv H. rename v into clauses. rewrite (a_uof f A _ _ _ H). cbn [beval].
-      destruct (forall2_bools _ (forallb bv) bv _ _ (mapR_forall2 _ _ _ Hv0)) as [_ C1].
-      { intros x y Hxy. exact (a_mof f A _ _ _ Hxy). }
-      rewrite C1, product_any_all, forallb_map'.
-      apply (forall2_bools _ bv (fun c => existsb bv match c with MUnion l0 => l0 | _ => [c] end) _ _ (mapR_forall2 _ _ _ Hv)).
-      intros x y Hxy. rewrite disj_list_bv. exact (a_dnf f A _ _ _ Hxy).
-    - bind_inv H. rename v into ds. rewrite (a_uof f A _ _ _ H). cbn [beval].
-      apply (forall2_bools _ bv bv _ _ (mapR_forall2 _ _ _ Hv)). intros x y Hxy. exact (a_dnf f A _ _ _ Hxy).
+    intros A st m r Gm H. cbn [dnf] in H. destruct m; try (ok_inv H; split; [reflexivity|exact Gm]).
+    - bind_inv H. rename v into ds. bind_inv H. rename v into clauses.
+      destruct (forall2_bools _ G bv _ _ (mapR_forall2 _ _ _ Hv) (G_multi_inv _ Gm)) as (C2 & _ & Gds).
+      { intros x y Gx Hxy. exact (a_dnf f A _ _ _ Gx Hxy). }
+      set (h := fun c => match c with MUnion l0 => l0 | _ => [c] end) in *.
+      assert (Glists : Forall (Forall G) (map h ds)) by (apply Forall_map_lists; [exact Gds|intros c Gc; exact (proj2 (disj_list_bv c Gc))]).
+      destruct (forall2_bools _ (Forall G) (forallb bv) _ _ (mapR_forall2 _ _ _ Hv0) (product_G _ Glists)) as (_ & C1 & Gcl).
+      { intros x y Gx Hxy. exact (a_mof f A _ _ _ Gx Hxy). }
+      destruct (a_uof f A _ _ _ Gcl H) as [V Gr]. split; [|exact Gr]. rewrite V, C1, product_any_all, forallb_map'. cbn [beval]. rewrite <- C2.
+      clear - Gds. induction Gds as [|c cs Gc Gcs IH]; [reflexivity|]. cbn [forallb]. rewrite IH. unfold h. rewrite (proj1 (disj_list_bv c Gc)). reflexivity.
+    - bind_inv H. rename v into ds.
+      destruct (forall2_bools _ G bv _ _ (mapR_forall2 _ _ _ Hv) (G_union_inv _ Gm)) as (_ & C1 & Gds).
+      { intros x y Gx Hxy. exact (a_dnf f A _ _ _ Gx Hxy). }
+      destruct (a_uof f A _ _ _ Gds H) as [V Gr]. split; [|exact Gr]. rewrite V. cbn [beval]. exact C1.
   Qed.
 
   Lemma step_mof f : ALL f -> S_mof (S f).
-  Proof. intros A st ms r H. cbn [multi_of] in H. rewrite (a_mloop f A _ _ _ _ H). apply flatten_multi_bv. Qed.
+  Proof.
+    intros A st ms r Gms H. cbn [multi_of] in H. destruct (flatten_multi_spec ms Gms) as [Gf Vf].
+    destruct (a_mloop f A _ _ _ _ Gf H) as [V Gr]. split; [|exact Gr]. rewrite V. exact Vf.
+  Qed.
   Lemma step_uof f : ALL f -> S_uof (S f).
-  Proof. intros A st ms r H. cbn [union_of_m] in H. rewrite (a_uloop f A _ _ _ _ H). apply flatten_union_bv. Qed.
+  Proof.
+    intros A st ms r Gms H. cbn [union_of_m] in H. destruct (flatten_union_spec ms Gms) as [Gf Vf].
+    destruct (a_uloop f A _ _ _ _ Gf H) as [V Gr]. split; [|exact Gr]. rewrite V. exact Vf.
+  Qed.
 
   Lemma step_mloop f : ALL f -> S_mloop (S f).
   Proof.
-    intros A st old new r H. cbn [multi_of_loop] in H. destruct (markers_eqb old new).
-    - destruct (existsb m_is_empty new) eqn:He; [ok_inv H; rewrite (empty_member_all _ He); reflexivity|].
-      destruct new as [|x [|y l]]; ok_inv H; [reflexivity| cbn [forallb]; rewrite andb_true_r; reflexivity | apply mk_multi_bv].
-    - bind_inv H. pose proof (a_mpass f A _ _ _ _ Hv) as P. cbn [forallb andb] in P. destruct v as [new'|].
-      + rewrite (a_mloop f A _ _ _ _ H). exact P.
-      + ok_inv H. exact P.
+    intros A st old new r Gn H. cbn [multi_of_loop] in H. destruct (markers_eqb old new).
+    - destruct (existsb m_is_empty new) eqn:He; [ok_inv H; rewrite (empty_member_all _ He); split; [reflexivity|constructor]|].
+      destruct new as [|x [|y l]]; ok_inv H.
+      + split; [reflexivity|constructor].
+      + cbn [forallb]. rewrite andb_true_r. split; [reflexivity|inversion Gn; assumption].
+      + exact (mk_multi_bv _ Gn).
+    - bind_inv H. pose proof (a_mpass f A _ _ _ _ Gn (Forall_nil G) Hv) as P. cbn [forallb andb] in P. destruct v as [new'|].
+      + destruct P as [P Gn']. destruct (a_mloop f A _ _ _ _ Gn' H) as [V Gr]. split; [|exact Gr]. rewrite V. exact P.
+      + ok_inv H. split; [symmetry; exact P|constructor].
   Qed.
   Lemma step_uloop f : ALL f -> S_uloop (S f).
   Proof.
-    intros A st old new r H. cbn [union_of_loop] in H. destruct (markers_eqb old new).
-    - destruct (existsb m_is_any new) eqn:He; [ok_inv H; rewrite (any_member_any _ He); reflexivity|].
-      destruct new as [|x [|y l]]; ok_inv H; [reflexivity| cbn [existsb]; rewrite orb_false_r; reflexivity | apply mk_union_bv].
-    - bind_inv H. pose proof (a_upass f A _ _ _ _ Hv) as P. cbn [existsb orb] in P. destruct v as [new'|].
-      + rewrite (a_uloop f A _ _ _ _ H). exact P.
-      + ok_inv H. exact P.
+    intros A st old new r Gn H. cbn [union_of_loop] in H. destruct (markers_eqb old new).
+    - destruct (existsb m_is_any new) eqn:He; [ok_inv H; rewrite (any_member_any _ He); split; [reflexivity|constructor]|].
+      destruct new as [|x [|y l]]; ok_inv H.
+      + split; [reflexivity|constructor].
+      + cbn [existsb]. rewrite orb_false_r. split; [reflexivity|inversion Gn; assumption].
+      + exact (mk_union_bv _ Gn).
+    - bind_inv H. pose proof (a_upass f A _ _ _ _ Gn (Forall_nil G) Hv) as P. cbn [existsb orb] in P. destruct v as [new'|].
+      + destruct P as [P Gn']. destruct (a_uloop f A _ _ _ _ Gn' H) as [V Gr]. split; [|exact Gr]. rewrite V. exact P.
+      + ok_inv H. split; [symmetry; exact P|constructor].
   Qed.
 
   Lemma step_mpass f : ALL f -> S_mpass (S f).
   Proof.
-    intros A st todo acc o H. cbn [multi_pass] in H. destruct todo as [|mk0 rest].
-    - ok_inv H. cbn [forallb]. rewrite andb_true_r. reflexivity.
-    - cbn [forallb]. destruct (marker_in mk0 acc || m_is_any mk0) eqn:C.
-      + rewrite (a_mpass f A _ _ _ _ H). apply orb_true_iff in C. destruct C as [C|C].
-        * destruct (forallb bv acc) eqn:Fa; [|reflexivity]. rewrite (all_member _ _ C Fa). reflexivity.
-        * destruct mk0; try discriminate. reflexivity.
-      + bind_inv H. pose proof (a_mtry f A _ _ _ _ _ Hv) as T. destruct v as [[acc'|]|].
-        * rewrite (a_mpass f A _ _ _ _ H), flatten_multi_bv, T, andb_assoc. reflexivity.
-        * rewrite (a_mpass f A _ _ _ _ H), forallb_app. cbn [forallb]. rewrite andb_true_r, andb_assoc. reflexivity.
+    intros A st todo acc o Gt Ga H. cbn [multi_pass] in H. destruct todo as [|mk0 rest].
+    - ok_inv H. cbn [forallb]. rewrite andb_true_r. split; [reflexivity|exact Ga].
+    - inversion Gt as [|? ? Gmk Grest]; subst. cbn [forallb]. destruct (marker_in mk0 acc || m_is_any mk0) eqn:C.
+      + pose proof (a_mpass f A _ _ _ _ Grest Ga H) as P.
+        assert (Q : forallb bv acc && (bv mk0 && forallb bv rest) = forallb bv acc && forallb bv rest).
+        { apply orb_true_iff in C. destruct C as [C|C].
+          - destruct (forallb bv acc) eqn:Fa; [|reflexivity]. rewrite (all_member _ _ Gmk Ga C Fa). reflexivity.
+          - destruct mk0; try discriminate. reflexivity. }
+        destruct o as [l|]; rewrite Q; exact P.
+      + bind_inv H. pose proof (a_mtry f A _ _ _ _ _ Gmk Ga Hv) as T. destruct v as [[acc'|]|].
+        * destruct T as [T Ga']. destruct (flatten_multi_spec acc' Ga') as [Gf Vf].
+          pose proof (a_mpass f A _ _ _ _ Grest Gf H) as P. rewrite Vf, T in P. rewrite andb_assoc. exact P.
+        * assert (Gacc : Forall G (acc ++ [mk0])) by (apply Forall_app; split; [exact Ga|constructor; [exact Gmk|constructor]]).
+          pose proof (a_mpass f A _ _ _ _ Grest Gacc H) as P. rewrite forallb_app in P. cbn [forallb] in P. rewrite andb_true_r in P.
+          rewrite andb_assoc. exact P.
         * ok_inv H. rewrite andb_assoc, T. reflexivity.
   Qed.
   Lemma step_upass f : ALL f -> S_upass (S f).
   Proof.
-    intros A st todo acc o H. cbn [union_pass] in H. destruct todo as [|mk0 rest].
-    - ok_inv H. cbn [existsb]. rewrite orb_false_r. reflexivity.
-    - cbn [existsb]. destruct (marker_in mk0 acc || m_is_empty mk0) eqn:C.
-      + rewrite (a_upass f A _ _ _ _ H). apply orb_true_iff in C. destruct C as [C|C].
-        * destruct (bv mk0) eqn:Bm; [|reflexivity]. rewrite (any_member _ _ C Bm). reflexivity.
-        * destruct mk0; try discriminate. reflexivity.
-      + bind_inv H. pose proof (a_utry f A _ _ _ _ _ Hv) as T. destruct v as [[acc'|]|].
-        * rewrite (a_upass f A _ _ _ _ H), flatten_union_bv, T, orb_assoc. reflexivity.
-        * rewrite (a_upass f A _ _ _ _ H), existsb_app. cbn [existsb]. rewrite orb_false_r, orb_assoc. reflexivity.
+    intros A st todo acc o Gt Ga H. cbn [union_pass] in H. destruct todo as [|mk0 rest].
+    - ok_inv H. cbn [existsb]. rewrite orb_false_r. split; [reflexivity|exact Ga].
+    - inversion Gt as [|? ? Gmk Grest]; subst. cbn [existsb]. destruct (marker_in mk0 acc || m_is_empty mk0) eqn:C.
+      + pose proof (a_upass f A _ _ _ _ Grest Ga H) as P.
+        assert (Q : existsb bv acc || (bv mk0 || existsb bv rest) = existsb bv acc || existsb bv rest).
+        { apply orb_true_iff in C. destruct C as [C|C].
+          - destruct (bv mk0) eqn:Bm; [|reflexivity]. rewrite (any_member _ _ Gmk Ga C Bm). reflexivity.
+          - destruct mk0; try discriminate. reflexivity. }
+        destruct o as [l|]; rewrite Q; exact P.
+      + bind_inv H. pose proof (a_utry f A _ _ _ _ _ Gmk Ga Hv) as T. destruct v as [[acc'|]|].
+        * destruct T as [T Ga']. destruct (flatten_union_spec acc' Ga') as [Gf Vf].
+          pose proof (a_upass f A _ _ _ _ Grest Gf H) as P. rewrite Vf, T in P. rewrite orb_assoc. exact P.
+        * assert (Gacc : Forall G (acc ++ [mk0])) by (apply Forall_app; split; [exact Ga|constructor; [exact Gmk|constructor]]).
+          pose proof (a_upass f A _ _ _ _ Grest Gacc H) as P. rewrite existsb_app in P. cbn [existsb] in P. rewrite orb_false_r in P.
+          rewrite orb_assoc. exact P.
         * ok_inv H. rewrite orb_assoc, T. reflexivity.
   Qed.
 
   Lemma step_mtry f : ALL f -> S_mtry (S f).
   Proof.
-    intros A st mk0 acc i o H. cbn [multi_try] in H.
+    intros A st mk0 acc i o Gmk Ga H. cbn [multi_try] in H.
     destruct (nth_error acc i) as [mark|] eqn:Hn; [|ok_inv H; exact I].
+    pose proof (Forall_in _ _ _ Ga (nth_in _ _ _ Hn)) as Gmark.
     bind_inv H. destruct v as [one_union inter].
-    assert (Hs : match inter with Some x => bv x = bv mark && bv mk0 | None => True end).
+    assert (Hs : match inter with Some x => bv x = bv mark && bv mk0 /\ G x | None => True end).
     { destruct mark; destruct mk0;
         try (ok_inv Hv; exact I);
         try (bind_inv Hv; ok_inv Hv;
-             match goal with Hq : intersect_simplify f _ _ _ = Ok _ |- _ => pose proof (a_isimp f A _ _ _ _ Hq) as Q end;
-             destruct inter; [rewrite Q; cbn [beval]; try reflexivity; apply andb_comm | exact I]). }
+             match goal with
+             | Hq : intersect_simplify f _ ?us ?o = Ok _ |- _ =>
+               let Gus := fresh in let Go := fresh in
+               assert (Gus : Forall G us) by (first [exact (G_union_inv _ Gmark) | exact (G_union_inv _ Gmk)]);
+               assert (Go : G o) by (first [exact Gmk | exact Gmark]);
+               pose proof (a_isimp f A _ _ _ _ Gus Go Hq) as Q
+             end;
+             destruct inter; [destruct Q as [Q Gx]; split; [rewrite Q; cbn [beval]; try reflexivity; apply andb_comm | exact Gx] | exact I]). }
     destruct inter as [x|].
-    - ok_inv H. exact (replace_nth_all _ _ _ _ _ Hn Hs).
+    - destruct Hs as [Hs Gx]. ok_inv H. split; [exact (replace_nth_all _ _ _ _ _ Hn Hs)|exact (replace_nth_G _ _ _ _ Hn Gx Ga)].
     - destruct (negb one_union && is_leaf_like mark).
-      + bind_inv H. rename v into nm. pose proof (a_int f A _ _ _ _ Hv0) as Hnm.
+      + bind_inv H. rename v into nm. destruct (a_int f A _ _ _ _ Gmark Gmk Hv0) as [Hnm Gnm].
         destruct (m_is_empty nm) eqn:Em.
         * ok_inv H. destruct nm; try discriminate. cbn [beval] in Hnm.
           destruct (bv mk0); [|apply andb_false_r]. rewrite andb_true_r in *.
           destruct (forallb bv acc) eqn:Fa; [|reflexivity]. rewrite forallb_forall in Fa. rewrite (Fa _ (nth_in _ _ _ Hn)) in Hnm. discriminate.
         * destruct (is_leaf_like nm).
-          -- ok_inv H. exact (replace_nth_all _ _ _ _ _ Hn Hnm).
-          -- exact (a_mtry f A _ _ _ _ _ H).
-      + exact (a_mtry f A _ _ _ _ _ H).
+          -- ok_inv H. split; [exact (replace_nth_all _ _ _ _ _ Hn Hnm)|exact (replace_nth_G _ _ _ _ Hn Gnm Ga)].
+          -- exact (a_mtry f A _ _ _ _ _ Gmk Ga H).
+      + exact (a_mtry f A _ _ _ _ _ Gmk Ga H).
   Qed.
   Lemma step_utry f : ALL f -> S_utry (S f).
   Proof.
-    intros A st mk0 acc i o H. cbn [union_try] in H.
+    intros A st mk0 acc i o Gmk Ga H. cbn [union_try] in H.
     destruct (nth_error acc i) as [mark|] eqn:Hn; [|ok_inv H; exact I].
+    pose proof (Forall_in _ _ _ Ga (nth_in _ _ _ Hn)) as Gmark.
     bind_inv H. destruct v as [one_multi un].
-    assert (Hs : match un with Some x => bv x = bv mark || bv mk0 | None => True end).
+    assert (Hs : match un with Some x => bv x = bv mark || bv mk0 /\ G x | None => True end).
     { destruct mark; destruct mk0;
         try (ok_inv Hv; exact I);
         try (bind_inv Hv; ok_inv Hv;
-             match goal with Hq : union_simplify f _ _ _ = Ok _ |- _ => pose proof (a_usimp f A _ _ _ _ Hq) as Q end;
-             destruct un; [rewrite Q; cbn [beval]; try reflexivity; apply orb_comm | exact I]). }
+             match goal with
+             | Hq : union_simplify f _ ?us ?o = Ok _ |- _ =>
+               let Gus := fresh in let Go := fresh in
+               assert (Gus : Forall G us) by (first [exact (G_multi_inv _ Gmark) | exact (G_multi_inv _ Gmk)]);
+               assert (Go : G o) by (first [exact Gmk | exact Gmark]);
+               pose proof (a_usimp f A _ _ _ _ Gus Go Hq) as Q
+             end;
+             destruct un; [destruct Q as [Q Gx]; split; [rewrite Q; cbn [beval]; try reflexivity; apply orb_comm | exact Gx] | exact I]). }
     destruct un as [x|].
-    - ok_inv H. exact (replace_nth_any _ _ _ _ _ Hn Hs).
+    - destruct Hs as [Hs Gx]. ok_inv H. split; [exact (replace_nth_any _ _ _ _ _ Hn Hs)|exact (replace_nth_G _ _ _ _ Hn Gx Ga)].
     - destruct (negb one_multi && is_leaf_like mark).
-      + bind_inv H. rename v into nm. pose proof (a_uni f A _ _ _ _ Hv0) as Hnm.
+      + bind_inv H. rename v into nm. destruct (a_uni f A _ _ _ _ Gmark Gmk Hv0) as [Hnm Gnm].
         destruct (m_is_any nm) eqn:Em.
         * ok_inv H. destruct nm; try discriminate. cbn [beval] in Hnm.
           destruct (bv mk0); [apply orb_true_r|]. rewrite orb_false_r in *.
           apply existsb_exists. exists mark. split; [exact (nth_in _ _ _ Hn)|symmetry; exact Hnm].
         * destruct (is_leaf_like nm).
-          -- ok_inv H. exact (replace_nth_any _ _ _ _ _ Hn Hnm).
-          -- exact (a_utry f A _ _ _ _ _ H).
-      + exact (a_utry f A _ _ _ _ _ H).
+          -- ok_inv H. split; [exact (replace_nth_any _ _ _ _ _ Hn Hnm)|exact (replace_nth_G _ _ _ _ Hn Gnm Ga)].
+          -- exact (a_utry f A _ _ _ _ _ Gmk Ga H).
+      + exact (a_utry f A _ _ _ _ _ Gmk Ga H).
   Qed.
 
   (* subsets and the shared part of two member lists *)
-  Lemma subset_any a b : subset_m a b = true -> existsb bv a = true -> existsb bv b = true.
+  Lemma subset_any a b : Forall G a -> Forall G b -> subset_m a b = true -> existsb bv a = true -> existsb bv b = true.
   Proof.
-    unfold subset_m. intros S Ha. rewrite forallb_forall in S. apply existsb_exists in Ha. destruct Ha as [x [Hx Bx]].
-    exact (any_member _ _ (S x Hx) Bx).
+    unfold subset_m. intros Ga Gb S Ha. rewrite forallb_forall in S. apply existsb_exists in Ha. destruct Ha as [x [Hx Bx]].
+    exact (any_member _ _ (Forall_in _ _ _ Ga Hx) Gb (S x Hx) Bx).
   Qed.
-  Lemma subset_all a b : subset_m a b = true -> forallb bv b = true -> forallb bv a = true.
+  Lemma subset_all a b : Forall G a -> Forall G b -> subset_m a b = true -> forallb bv b = true -> forallb bv a = true.
   Proof.
-    unfold subset_m. intros S Hb. rewrite forallb_forall in S. apply forallb_forall. intros x Hx. exact (all_member _ _ (S x Hx) Hb).
+    unfold subset_m. intros Ga Gb S Hb. rewrite forallb_forall in S. apply forallb_forall. intros x Hx.
+    exact (all_member _ _ (Forall_in _ _ _ Ga Hx) Gb (S x Hx) Hb).
   Qed.
   Lemma in_sym x y l : In y l -> marker_eqb x y = true -> marker_in x l = true.
   Proof. intros Hy Exy. unfold marker_in. apply existsb_exists. exists y. split; assumption. Qed.
-  Lemma shared_any ms os :
+  Lemma shared_any ms os : Forall G ms -> Forall G os ->
     existsb bv (filter (fun m => marker_in m ms) os) = existsb bv (filter (fun m => marker_in m os) ms).
   Proof.
-    assert (G : forall a b, existsb bv (filter (fun m => marker_in m a) b) = true -> existsb bv (filter (fun m => marker_in m b) a) = true).
-    { intros a b H. apply existsb_exists in H. destruct H as [x [Hx Bx]]. apply filter_In in Hx. destruct Hx as [Hxb Hxa].
+    assert (K : forall a b, Forall G a -> Forall G b -> existsb bv (filter (fun m => marker_in m a) b) = true -> existsb bv (filter (fun m => marker_in m b) a) = true).
+    { intros a b Ga Gb H. apply existsb_exists in H. destruct H as [x [Hx Bx]]. apply filter_In in Hx. destruct Hx as [Hxb Hxa].
       unfold marker_in in Hxa. apply existsb_exists in Hxa. destruct Hxa as [y [Hya Exy]].
+      pose proof (Forall_in _ _ _ Gb Hxb) as Gx. pose proof (Forall_in _ _ _ Ga Hya) as Gy.
       apply existsb_exists. exists y. split.
-      - apply filter_In. split; [exact Hya|]. apply (in_sym y x b Hxb). rewrite Hsym. exact Exy.
-      - rewrite <- (Hkey _ _ Exy). exact Bx. }
+      - apply filter_In. split; [exact Hya|]. apply (in_sym y x b Hxb). rewrite (Hsym y x Gy Gx). exact Exy.
+      - rewrite <- (Hkey _ _ Gx Gy Exy). exact Bx. }
+    intros Gm Go.
     destruct (existsb bv (filter (fun m => marker_in m ms) os)) eqn:X.
-    - symmetry. apply G. exact X.
-    - destruct (existsb bv (filter (fun m => marker_in m os) ms)) eqn:Y; [|reflexivity]. rewrite (G _ _ Y) in X. discriminate.
+    - symmetry. apply K; assumption.
+    - destruct (existsb bv (filter (fun m => marker_in m os) ms)) eqn:Y; [|reflexivity]. rewrite (K _ _ Go Gm Y) in X. discriminate.
   Qed.
-  Lemma shared_all ms os :
+  Lemma shared_all ms os : Forall G ms -> Forall G os ->
     forallb bv (filter (fun m => marker_in m ms) os) = forallb bv (filter (fun m => marker_in m os) ms).
   Proof.
-    assert (G : forall a b, forallb bv (filter (fun m => marker_in m a) b) = true -> forallb bv (filter (fun m => marker_in m b) a) = true).
-    { intros a b H. rewrite forallb_forall in H. apply forallb_forall. intros y Hy. apply filter_In in Hy. destruct Hy as [Hya Hyb].
+    assert (K : forall a b, Forall G a -> Forall G b -> forallb bv (filter (fun m => marker_in m a) b) = true -> forallb bv (filter (fun m => marker_in m b) a) = true).
+    { intros a b Ga Gb H. rewrite forallb_forall in H. apply forallb_forall. intros y Hy. apply filter_In in Hy. destruct Hy as [Hya Hyb].
       unfold marker_in in Hyb. apply existsb_exists in Hyb. destruct Hyb as [x [Hxb Eyx]].
-      rewrite (Hkey _ _ Eyx). apply H. apply filter_In. split; [exact Hxb|]. apply (in_sym x y a Hya). rewrite Hsym. exact Eyx. }
+      pose proof (Forall_in _ _ _ Gb Hxb) as Gx. pose proof (Forall_in _ _ _ Ga Hya) as Gy.
+      rewrite (Hkey _ _ Gy Gx Eyx). apply H. apply filter_In. split; [exact Hxb|]. apply (in_sym x y a Hya). rewrite (Hsym x y Gx Gy). exact Eyx. }
+    intros Gm Go.
     destruct (forallb bv (filter (fun m => marker_in m ms) os)) eqn:X.
-    - symmetry. apply G. exact X.
-    - destruct (forallb bv (filter (fun m => marker_in m os) ms)) eqn:Y; [|reflexivity]. rewrite (G _ _ Y) in X. discriminate.
+    - symmetry. apply K; assumption.
+    - destruct (forallb bv (filter (fun m => marker_in m os) ms)) eqn:Y; [|reflexivity]. rewrite (K _ _ Go Gm Y) in X. discriminate.
   Qed.
 
   Lemma step_isimp f : ALL f -> S_isimp (S f).
   Proof.
-    intros A st ms other o H. cbn [intersect_simplify] in H.
+    intros A st ms other o Gms Go H. cbn [intersect_simplify] in H.
     destruct (marker_in other ms) eqn:Hin.
-    - ok_inv H. destruct (bv other) eqn:Bo; [|rewrite andb_false_r; reflexivity]. rewrite (any_member _ _ Hin Bo). reflexivity.
-    - destruct other; try (ok_inv H; exact I). rename l into os.
+    - ok_inv H. split; [|exact Go]. destruct (bv other) eqn:Bo; [|rewrite andb_false_r; reflexivity]. rewrite (any_member _ _ Go Gms Hin Bo). reflexivity.
+    - destruct other; try (ok_inv H; exact I). rename l into os. pose proof (G_union_inv _ Go) as Gos.
       destruct (subset_m ms os) eqn:S1.
-      { ok_inv H. cbn [beval]. destruct (existsb bv ms) eqn:Bm; [|reflexivity]. rewrite (subset_any _ _ S1 Bm). reflexivity. }
+      { ok_inv H. cbn [beval]. split; [|constructor; exact Gms]. destruct (existsb bv ms) eqn:Bm; [|reflexivity]. rewrite (subset_any _ _ Gms Gos S1 Bm). reflexivity. }
       destruct (subset_m os ms) eqn:S2.
-      { ok_inv H. cbn [beval]. destruct (existsb bv os) eqn:Bm; [|rewrite andb_false_r; reflexivity]. rewrite (subset_any _ _ S2 Bm). reflexivity. }
+      { ok_inv H. cbn [beval]. split; [|exact Go]. destruct (existsb bv os) eqn:Bm; [|rewrite andb_false_r; reflexivity]. rewrite (subset_any _ _ Gos Gms S2 Bm). reflexivity. }
       destruct (filter (fun m => marker_in m os) ms) as [|s0 sh] eqn:Hsh; [ok_inv H; exact I|].
       rewrite <- Hsh in H.
-      bind_inv H. rename v into ui. pose proof (a_ifn f A _ _ _ Hv) as Hui. cbn [forallb] in Hui. rewrite !mk_union_bv, andb_true_r in Hui.
+      pose proof (Forall_filter G (fun m => negb (marker_in m os)) ms Gms) as Gu.
+      pose proof (Forall_filter G (fun m => negb (marker_in m ms)) os Gos) as Gou.
+      pose proof (Forall_filter G (fun m => marker_in m os) ms Gms) as Gsh.
+      destruct (mk_union_bv _ Gu) as [Vu Gmu]. destruct (mk_union_bv _ Gou) as [Vou Gmou]. destruct (mk_union_bv _ Gsh) as [Vsh Gmsh].
+      bind_inv H. rename v into ui.
+      destruct (a_ifn f A _ _ _ (Forall_cons _ Gmu (Forall_cons _ Gmou (Forall_nil G))) Hv) as [Hui Gui]. cbn [forallb] in Hui. rewrite Vu, Vou, andb_true_r in Hui.
       destruct (is_leaf_like ui || m_is_empty ui); [|ok_inv H; exact I].
-      bind_inv H. ok_inv H. rewrite (a_uni f A _ _ _ _ Hv0), Hui, mk_union_bv. cbn [beval].
-      rewrite (existsb_filter_split (fun m => marker_in m os) ms), (existsb_filter_split (fun m => marker_in m ms) os), (shared_any ms os).
+      bind_inv H. ok_inv H. destruct (a_uni f A _ _ _ _ Gui Gmsh Hv0) as [Vr Gr]. split; [|exact Gr].
+      rewrite Vr, Hui, Vsh. cbn [beval].
+      rewrite (existsb_filter_split (fun m => marker_in m os) ms), (existsb_filter_split (fun m => marker_in m ms) os), (shared_any ms os Gms Gos).
       destruct (existsb bv (filter (fun m => marker_in m os) ms)), (existsb bv (filter (fun m => negb (marker_in m os)) ms)),
                (existsb bv (filter (fun m => negb (marker_in m ms)) os)); reflexivity.
   Qed.
   Lemma step_usimp f : ALL f -> S_usimp (S f).
   Proof.
-    intros A st ms other o H. cbn [union_simplify] in H.
+    intros A st ms other o Gms Go H. cbn [union_simplify] in H.
     destruct (marker_in other ms) eqn:Hin.
-    - ok_inv H. destruct (forallb bv ms) eqn:Bm; [|reflexivity]. rewrite (all_member _ _ Hin Bm). reflexivity.
-    - destruct other; try (ok_inv H; exact I). rename l into os.
+    - ok_inv H. split; [|exact Go]. destruct (forallb bv ms) eqn:Bm; [|reflexivity]. rewrite (all_member _ _ Go Gms Hin Bm). reflexivity.
+    - destruct other; try (ok_inv H; exact I). rename l into os. pose proof (G_multi_inv _ Go) as Gos.
       destruct (subset_m ms os) eqn:S1.
-      { ok_inv H. cbn [beval]. destruct (forallb bv os) eqn:Bm; [|rewrite orb_false_r; reflexivity]. rewrite (subset_all _ _ S1 Bm). reflexivity. }
+      { ok_inv H. cbn [beval]. split; [|constructor; exact Gms]. destruct (forallb bv os) eqn:Bm; [|rewrite orb_false_r; reflexivity]. rewrite (subset_all _ _ Gms Gos S1 Bm). reflexivity. }
       destruct (subset_m os ms) eqn:S2.
-      { ok_inv H. cbn [beval]. destruct (forallb bv ms) eqn:Bm; [|reflexivity]. rewrite (subset_all _ _ S2 Bm). reflexivity. }
+      { ok_inv H. cbn [beval]. split; [|exact Go]. destruct (forallb bv ms) eqn:Bm; [|reflexivity]. rewrite (subset_all _ _ Gos Gms S2 Bm). reflexivity. }
       destruct (filter (fun m => marker_in m os) ms) as [|s0 sh] eqn:Hsh; [ok_inv H; exact I|].
       rewrite <- Hsh in H.
-      bind_inv H. rename v into uu. pose proof (a_ufn f A _ _ _ Hv) as Huu. cbn [existsb] in Huu. rewrite !mk_multi_bv, orb_false_r in Huu.
+      pose proof (Forall_filter G (fun m => negb (marker_in m os)) ms Gms) as Gu.
+      pose proof (Forall_filter G (fun m => negb (marker_in m ms)) os Gos) as Gou.
+      pose proof (Forall_filter G (fun m => marker_in m os) ms Gms) as Gsh.
+      destruct (mk_multi_bv _ Gu) as [Vu Gmu]. destruct (mk_multi_bv _ Gou) as [Vou Gmou]. destruct (mk_multi_bv _ Gsh) as [Vsh Gmsh].
+      bind_inv H. rename v into uu.
+      destruct (a_ufn f A _ _ _ (Forall_cons _ Gmu (Forall_cons _ Gmou (Forall_nil G))) Hv) as [Huu Guu]. cbn [existsb] in Huu. rewrite Vu, Vou, orb_false_r in Huu.
       destruct (is_leaf_like uu || m_is_any uu); [|ok_inv H; exact I].
-      bind_inv H. ok_inv H. rewrite (a_int f A _ _ _ _ Hv0), Huu, mk_multi_bv. cbn [beval].
-      rewrite (forallb_filter_split (fun m => marker_in m os) ms), (forallb_filter_split (fun m => marker_in m ms) os), (shared_all ms os).
+      bind_inv H. ok_inv H. destruct (a_int f A _ _ _ _ Guu Gmsh Hv0) as [Vr Gr]. split; [|exact Gr].
+      rewrite Vr, Huu, Vsh. cbn [beval].
+      rewrite (forallb_filter_split (fun m => marker_in m os) ms), (forallb_filter_split (fun m => marker_in m ms) os), (shared_all ms os Gms Gos).
       destruct (forallb bv (filter (fun m => marker_in m os) ms)), (forallb bv (filter (fun m => negb (marker_in m os)) ms)),
                (forallb bv (filter (fun m => negb (marker_in m ms)) os)); reflexivity.
   Qed.
 
-  Lemma forall2_weaken {A B} (R : A -> B -> Prop) (k : A -> bool) (h : B -> bool) l l' :
-    Forall2 R l l' -> (forall x y, R x y -> k x = true -> h y = true) ->
-    (forallb k l = true -> forallb h l' = true) /\ (existsb k l = true -> existsb h l' = true).
-  Proof.
-    intros F HR. induction F as [|x y l l' Hxy F IH]; [split; auto|]. destruct IH as [I1 I2]. cbn [forallb existsb]. split; intros H.
-    - apply andb_true_iff in H. destruct H as [H1 H2]. rewrite (HR _ _ Hxy H1), (I1 H2). reflexivity.
-    - apply orb_true_iff in H. destruct H as [H1|H2]; [rewrite (HR _ _ Hxy H1); reflexivity|rewrite (I2 H2); apply orb_true_r].
-  Qed.
   Lemma step_only f : ALL f -> S_only (S f).
   Proof.
-    intros A st names m r H Hm. cbn [only] in H.
-    assert (L : match leaf_like m with Some (n, _) => Ok (if mem_str n names then m else MAny) | None => Ok m end = Ok r -> bv r = true).
-    { intros H'. destruct (leaf_like m) as [[n c]|]; ok_inv H'; [destruct (mem_str n names); [exact Hm|reflexivity]|exact Hm]. }
+    intros A st names m r Gm H. cbn [only] in H.
+    assert (L : match leaf_like m with Some (n, _) => Ok (if mem_str n names then m else MAny) | None => Ok m end = Ok r -> (bv m = true -> bv r = true) /\ G r).
+    { intros H'. destruct (leaf_like m) as [[n c]|]; ok_inv H'; [destruct (mem_str n names); [split; [auto|exact Gm]|split; [reflexivity|constructor]]|split; [auto|exact Gm]]. }
     destruct m; try (apply L; exact H).
-    - bind_inv H. rewrite (a_mof f A _ _ _ H).
-      apply (forall2_weaken _ bv bv _ _ (mapR_forall2 _ _ _ Hv)); [|exact Hm]. intros x y Hxy Bx. exact (a_only f A _ _ _ _ Hxy Bx).
-    - bind_inv H. rewrite (a_uof f A _ _ _ H).
-      apply (forall2_weaken _ bv bv _ _ (mapR_forall2 _ _ _ Hv)); [|exact Hm]. intros x y Hxy Bx. exact (a_only f A _ _ _ _ Hxy Bx).
+    - bind_inv H. destruct (forall2_weaken _ _ _ (mapR_forall2 _ _ _ Hv) (G_multi_inv _ Gm)) as (W1 & _ & Gv).
+      { intros x y Gx Hxy. exact (a_only f A _ _ _ _ Gx Hxy). }
+      destruct (a_mof f A _ _ _ Gv H) as [V Gr]. split; [|exact Gr]. intros Bm. rewrite V. apply W1. exact Bm.
+    - bind_inv H. destruct (forall2_weaken _ _ _ (mapR_forall2 _ _ _ Hv) (G_union_inv _ Gm)) as (_ & W2 & Gv).
+      { intros x y Gx Hxy. exact (a_only f A _ _ _ _ Gx Hxy). }
+      destruct (a_uof f A _ _ _ Gv H) as [V Gr]. split; [|exact Gr]. intros Bm. rewrite V. apply W2. exact Bm.
   Qed.
 
   Theorem all_sound : forall f, ALL f.
@@ -492,36 +664,101 @@ Section Sound.
   Qed.
 End Sound.
 
-(* ---- the statements used by the property files ---- *)
-Definition key_sound (E : env) : Prop := forall a b, marker_eqb a b = true -> beval E a = beval E b.
-Definition key_symmetric : Prop := forall a b, marker_eqb a b = marker_eqb b a.
-Definition merge_sound (E : env) : Prop := forall fuel st m1 m2 is_multi r,
-  merge_single fuel st m1 m2 is_multi = Ok (Some r) ->
-  beval E r = if is_multi then beval E m1 && beval E m2 else beval E m1 || beval E m2.
+(* ---------- from clauses to markers: the two key premises lift through the structure ---------- *)
+Section Lift.
+  Variable E : env.
+  Variable R : marker -> Prop.
+  Hypothesis Kc : forall x y, is_leaf_like x = true -> is_leaf_like y = true -> R x -> R y -> marker_eqb x y = true -> beval E x = beval E y.
+  Hypothesis Sc : forall x y, is_leaf_like x = true -> is_leaf_like y = true -> R x -> R y -> marker_eqb x y = marker_eqb y x.
+
+  Let eqs := fix go (l l' : list marker) : bool :=
+       match l, l' with [], [] => true | x :: r, y :: r' => marker_eqb x y && go r r' | _, _ => false end.
+  Lemma eqb_multi l l' : marker_eqb (MMulti l) (MMulti l') = eqs l l'. Proof. reflexivity. Qed.
+  Lemma eqb_union l l' : marker_eqb (MUnion l) (MUnion l') = eqs l l'. Proof. reflexivity. Qed.
+
+  Lemma lift_key : forall a, G R a -> forall b, G R b -> marker_eqb a b = true -> beval E a = beval E b.
+  Proof.
+    induction a as [| |la|na aa|na aa|l IHl|l IHl] using marker_ind'; intros Ga b Gb H; destruct b as [| |lb|nb ab|nb ab|l0|l0]; try discriminate; try reflexivity.
+    - inversion Ga; inversion Gb; subst. apply Kc; auto.
+    - inversion Ga; inversion Gb; subst. apply Kc; auto.
+    - inversion Ga; inversion Gb; subst. apply Kc; auto.
+    - rewrite eqb_multi in H. cbn [beval]. apply G_multi_inv in Ga, Gb. revert l0 Gb H.
+      induction IHl as [|x l Hx Hl IH]; intros [|y l'] Gb H; try discriminate; [reflexivity|].
+      cbn in H. apply andb_true_iff in H. destruct H as [E1 E2].
+      inversion Ga as [|? ? Gx Gl]; inversion Gb as [|? ? Gy Gl']; subst. cbn [forallb].
+      rewrite (Hx Gx y Gy E1), (IH Gl l' Gl' E2). reflexivity.
+    - rewrite eqb_union in H. cbn [beval]. apply G_union_inv in Ga, Gb. revert l0 Gb H.
+      induction IHl as [|x l Hx Hl IH]; intros [|y l'] Gb H; try discriminate; [reflexivity|].
+      cbn in H. apply andb_true_iff in H. destruct H as [E1 E2].
+      inversion Ga as [|? ? Gx Gl]; inversion Gb as [|? ? Gy Gl']; subst. cbn [existsb].
+      rewrite (Hx Gx y Gy E1), (IH Gl l' Gl' E2). reflexivity.
+  Qed.
+  Lemma lift_sym : forall a, G R a -> forall b, G R b -> marker_eqb a b = marker_eqb b a.
+  Proof.
+    induction a as [| |la|na aa|na aa|l IHl|l IHl] using marker_ind'; intros Ga b Gb; destruct b as [| |lb|nb ab|nb ab|l0|l0]; try reflexivity.
+    - inversion Ga; inversion Gb; subst. apply Sc; auto.
+    - inversion Ga; inversion Gb; subst. apply Sc; auto.
+    - inversion Ga; inversion Gb; subst. apply Sc; auto.
+    - rewrite !eqb_multi. apply G_multi_inv in Ga, Gb. revert l0 Gb.
+      induction IHl as [|x l Hx Hl IH]; intros [|y l'] Gb; try reflexivity.
+      inversion Ga as [|? ? Gx Gl]; inversion Gb as [|? ? Gy Gl']; subst. cbn. rewrite (Hx Gx y Gy), (IH Gl l' Gl'). reflexivity.
+    - rewrite !eqb_union. apply G_union_inv in Ga, Gb. revert l0 Gb.
+      induction IHl as [|x l Hx Hl IH]; intros [|y l'] Gb; try reflexivity.
+      inversion Ga as [|? ? Gx Gl]; inversion Gb as [|? ? Gy Gl']; subst. cbn. rewrite (Hx Gx y Gy), (IH Gl l' Gl'). reflexivity.
+  Qed.
+End Lift.
+
+(* ---------- the statements used by the property files ---------- *)
+Record clause_class (E : env) (R : marker -> Prop) : Prop := {
+  cc_key : forall x y, is_leaf_like x = true -> is_leaf_like y = true -> R x -> R y -> marker_eqb x y = true -> beval E x = beval E y;
+  cc_sym : forall x y, is_leaf_like x = true -> is_leaf_like y = true -> R x -> R y -> marker_eqb x y = marker_eqb y x;
+  cc_merge : forall fuel st m1 m2 is_multi r, G R m1 -> G R m2 -> merge_single fuel st m1 m2 is_multi = Ok (Some r) ->
+             beval E r = (if is_multi then beval E m1 && beval E m2 else beval E m1 || beval E m2) /\ G R r }.
 
 Section Corollaries.
   Variable E : env.
-  Hypothesis (HK : key_sound E) (HS : key_symmetric) (HM : merge_sound E).
-  Let A := all_sound E HK HS HM.
-  Theorem intersect_union_sound fuel st a b :
-    (forall r, m_intersect fuel st a b = Ok r -> beval E r = beval E a && beval E b) /\
-    (forall r, m_union fuel st a b = Ok r -> beval E r = beval E a || beval E b).
-  Proof. split; intros r H; [exact (a_int E fuel (A fuel) _ _ _ _ H) | exact (a_uni E fuel (A fuel) _ _ _ _ H)]. Qed.
-  Theorem nary_sound fuel st args :
-    (forall r, intersection_fn fuel st args = Ok r -> beval E r = forallb (beval E) args) /\
-    (forall r, union_fn fuel st args = Ok r -> beval E r = existsb (beval E) args).
-  Proof. split; intros r H; [exact (a_ifn E fuel (A fuel) _ _ _ H) | exact (a_ufn E fuel (A fuel) _ _ _ H)]. Qed.
-  Theorem normal_forms_sound fuel st m :
-    (forall r, cnf fuel st m = Ok r -> beval E r = beval E m) /\ (forall r, dnf fuel st m = Ok r -> beval E r = beval E m).
-  Proof. split; intros r H; [exact (a_cnf E fuel (A fuel) _ _ _ H) | exact (a_dnf E fuel (A fuel) _ _ _ H)]. Qed.
-  Theorem of_sound fuel st ms :
-    (forall r, multi_of fuel st ms = Ok r -> beval E r = forallb (beval E) ms) /\
-    (forall r, union_of_m fuel st ms = Ok r -> beval E r = existsb (beval E) ms).
-  Proof. split; intros r H; [exact (a_mof E fuel (A fuel) _ _ _ H) | exact (a_uof E fuel (A fuel) _ _ _ H)]. Qed.
-  Theorem only_weakens fuel st names m r : only fuel st names m = Ok r -> beval E m = true -> beval E r = true.
-  Proof. exact (a_only E fuel (A fuel) st names m r). Qed.
+  Variable R : marker -> Prop.
+  Hypothesis CC : clause_class E R.
+  Let A := all_sound E R (fun a b Ga Gb => lift_key E R (cc_key E R CC) a Ga b Gb) (fun a b Ga Gb => lift_sym R (cc_sym E R CC) a Ga b Gb) (cc_merge E R CC).
+  Theorem intersect_union_sound fuel st a b : G R a -> G R b ->
+    (forall r, m_intersect fuel st a b = Ok r -> beval E r = beval E a && beval E b /\ G R r) /\
+    (forall r, m_union fuel st a b = Ok r -> beval E r = beval E a || beval E b /\ G R r).
+  Proof. intros Ga Gb. split; intros r H; [exact (a_int E R fuel (A fuel) _ _ _ _ Ga Gb H) | exact (a_uni E R fuel (A fuel) _ _ _ _ Ga Gb H)]. Qed.
+  Theorem nary_sound fuel st args : Forall (G R) args ->
+    (forall r, intersection_fn fuel st args = Ok r -> beval E r = forallb (beval E) args /\ G R r) /\
+    (forall r, union_fn fuel st args = Ok r -> beval E r = existsb (beval E) args /\ G R r).
+  Proof. intros Ga. split; intros r H; [exact (a_ifn E R fuel (A fuel) _ _ _ Ga H) | exact (a_ufn E R fuel (A fuel) _ _ _ Ga H)]. Qed.
+  Theorem normal_forms_sound fuel st m : G R m ->
+    (forall r, cnf fuel st m = Ok r -> beval E r = beval E m /\ G R r) /\ (forall r, dnf fuel st m = Ok r -> beval E r = beval E m /\ G R r).
+  Proof. intros Gm. split; intros r H; [exact (a_cnf E R fuel (A fuel) _ _ _ Gm H) | exact (a_dnf E R fuel (A fuel) _ _ _ Gm H)]. Qed.
+  Theorem of_sound fuel st ms : Forall (G R) ms ->
+    (forall r, multi_of fuel st ms = Ok r -> beval E r = forallb (beval E) ms /\ G R r) /\
+    (forall r, union_of_m fuel st ms = Ok r -> beval E r = existsb (beval E) ms /\ G R r).
+  Proof. intros Gm. split; intros r H; [exact (a_mof E R fuel (A fuel) _ _ _ Gm H) | exact (a_uof E R fuel (A fuel) _ _ _ Gm H)]. Qed.
+  Theorem only_weakens fuel st names m r : G R m -> only fuel st names m = Ok r -> (beval E m = true -> beval E r = true) /\ G R r.
+  Proof. intros Gm. exact (a_only E R fuel (A fuel) st names m r Gm). Qed.
 End Corollaries.
 
-(* the premises are satisfiable together with non-trivial markers: on markers without leaves they hold outright *)
-Example premises_meet : forall E, beval E (MMulti [MAny; MUnion [MEmpty; MAny]]) = true.
-Proof. reflexivity. Qed.
+(* ---------- the premises can be met: a class of three concrete clauses on three variables ---------- *)
+Definition clause_of (name cstr : string) : marker := match mk_leaf name cstr false with Ok l => MSingle l | Err _ => MAny end.
+Definition demo_clauses : list marker :=
+  [clause_of "sys_platform" "==linux"; clause_of "os_name" "!=nt"; clause_of "platform_machine" "==x86_64"].
+Definition demo_R (x : marker) : Prop := In x demo_clauses.
+Lemma demo_cases x : demo_R x ->
+  x = clause_of "sys_platform" "==linux" \/ x = clause_of "os_name" "!=nt" \/ x = clause_of "platform_machine" "==x86_64".
+Proof. intros [H|[H|[H|[]]]]; auto. Qed.
+Theorem demo_class E : clause_class E demo_R.
+Proof.
+  split.
+  - intros x y _ _ Rx Ry H. destruct (demo_cases x Rx) as [-> | [-> | ->]], (demo_cases y Ry) as [-> | [-> | ->]]; try reflexivity; vm_compute in H; discriminate.
+  - intros x y _ _ Rx Ry. destruct (demo_cases x Rx) as [-> | [-> | ->]], (demo_cases y Ry) as [-> | [-> | ->]]; reflexivity.
+  - intros fuel st m1 m2 is_multi r G1 G2 H. destruct fuel as [|f]; [discriminate|].
+    assert (L1 : is_leaf_like m1 = true) by (destruct m1; try reflexivity; cbn in H; discriminate).
+    assert (L2 : is_leaf_like m2 = true).
+    { destruct m2; try reflexivity; destruct m1; try discriminate; cbn in H; discriminate. }
+    assert (R1 : demo_R m1) by (inversion G1; subst; try discriminate; assumption).
+    assert (R2 : demo_R m2) by (inversion G2; subst; try discriminate; assumption).
+    destruct (demo_cases m1 R1) as [-> | [-> | ->]], (demo_cases m2 R2) as [-> | [-> | ->]]; destruct is_multi;
+      vm_compute in H; try discriminate; injection H as <-;
+      (split; [destruct (beval E _); reflexivity | first [exact G1 | exact G2]]).
+Qed.
